@@ -148,7 +148,7 @@ func TestVerifBattery(t *testing.T) {
 						ya, oka := recv.SqrtRatio(u2, v2)
 						yf, okf := New().SqrtRatio(vElemOf(a), vElemOf(b))
 						if oka != okf || vValue(ya).Cmp(vValue(yf)) != 0 {
-							bad("SqrtRatio(%x,%x) with the receiver aliasing operand %d differs from the unaliased call", a, b, alias)
+							bad("AliasedSqrtRatio(%x,%x): receiver aliasing operand %d differs from the unaliased call", a, b, alias)
 						}
 					}
 					y, ok := New().SqrtRatio(ea, eb)
